@@ -1652,4 +1652,55 @@ theorem addH_detaches {h h' : Heap} {rank : Addr → Nat} (hr : h.RankedBy rank)
     · exact Or.inr (by rw [hp]; exact ⟨hvx, hvc⟩)
   · cases he
 
+/-! ## 11. AddContainer / AddList: always a new, empty node -/
+
+theorem addNew_fresh {h h2 : Heap} {rank : Addr → Nat} (hc : h.Closed) (hr : h.RankedBy rank) (hn : h.NilOk)
+    {c w : Addr} {name : String} {c0 : Cell} (hk : c0.kids = []) (hclt : c < h.size)
+    (he : addH (h.alloc c0).1 c name h.size = some h2) (spec : AttachSpec (h.alloc c0).1 c h.size w h2) :
+    h2.get? h.size = some c0 ∧ childH h2 c name = some h.size ∧ ∀ a, a < h.size → a ≠ w → h2.get? a = h.get? a := by
+  have hl := le_alloc h c0
+  have hwlt : w < h.size := reach_lt hc (reach_of_le hl hc spec.reach_w hclt) hclt
+  refine ⟨?_, addH_child (rankedBy_alloc_empty hr hk) (nilOk_mono hn hl) he, ?_⟩
+  · rw [spec.frame h.size (by rw [size_alloc]; exact Nat.lt_succ_self _) (Nat.ne_of_gt hwlt)]
+    exact get?_alloc_new h c0
+  · intro a ha hne
+    rw [spec.frame a (Nat.lt_of_lt_of_le ha (size_le_of_le hl)) hne, get?_eq_of_le hl ha]
+
+/-- `AddContainer(name)`: the returned node is NEW (not an address of the old heap — also when a
+    container was stored under the name before), empty, and it is what `Child(name)` returns;
+    one existing cell is written -/
+theorem addContainerH_fresh {h h2 : Heap} {rank : Addr → Nat} (hc : h.Closed) (hr : h.RankedBy rank) (hn : h.NilOk)
+    (hm : h.MapsOk) {c b : Addr} {name : String} (hclt : c < h.size) (he : addContainerH h c name = some (h2, b)) :
+    b = h.size ∧ h2.get? b = some (.cont []) ∧ childH h2 c name = some b ∧
+      ∃ w, Reach h c w ∧ ∀ a, a < h.size → a ≠ w → h2.get? a = h.get? a := by
+  obtain ⟨hb, w, spec⟩ := addContainerH_spec hr hn hm he
+  subst hb
+  have he' : addH (h.alloc (.cont [])).1 c name h.size = some h2 := by
+    unfold addContainerH at he
+    simp only at he
+    split at he
+    · rename_i h2' he'
+      simp only [Option.some.injEq, Prod.mk.injEq] at he
+      rw [← he.1]; exact he'
+    · cases he
+  obtain ⟨h1, h2', h3⟩ := addNew_fresh hc hr hn rfl hclt he' spec
+  exact ⟨rfl, h1, h2', w, reach_of_le (le_alloc _ _) hc spec.reach_w hclt, h3⟩
+
+theorem addListH_fresh {h h2 : Heap} {rank : Addr → Nat} (hc : h.Closed) (hr : h.RankedBy rank) (hn : h.NilOk)
+    (hm : h.MapsOk) {c b : Addr} {name : String} (hclt : c < h.size) (he : addListH h c name = some (h2, b)) :
+    b = h.size ∧ h2.get? b = some (.list []) ∧ childH h2 c name = some b ∧
+      ∃ w, Reach h c w ∧ ∀ a, a < h.size → a ≠ w → h2.get? a = h.get? a := by
+  obtain ⟨hb, w, spec⟩ := addListH_spec hr hn hm he
+  subst hb
+  have he' : addH (h.alloc (.list [])).1 c name h.size = some h2 := by
+    unfold addListH at he
+    simp only at he
+    split at he
+    · rename_i h2' he'
+      simp only [Option.some.injEq, Prod.mk.injEq] at he
+      rw [← he.1]; exact he'
+    · cases he
+  obtain ⟨h1, h2', h3⟩ := addNew_fresh hc hr hn rfl hclt he' spec
+  exact ⟨rfl, h1, h2', w, reach_of_le (le_alloc _ _) hc spec.reach_w hclt, h3⟩
+
 end Ytk.Heap
